@@ -1,6 +1,7 @@
-(* C04 correspondence driver: evaluates the extracted Ring/Replicas model on the harness' cases.
-   Case:  Q <nodes> <ring> <pre> <strategy> <dc> <token>
-   Impl:  <len> <iter> <nth> <choose> <cf> <ordered> <ep> <np>          (see harness/src/bin/c04.rs) *)
+(* C04 correspondence driver: evaluates the extracted Ring/Replicas/TabletSets model on the
+   harness' cases (formats: harness/src/bin/c04.rs).
+   Q <nodes> <ring> <pre> <strategy> <dc> <token> | 14 observed fields
+   T <nodes> <ring> <tablets> <dc> <token>        | 6 observed fields *)
 
 let opt_n s = if s = "_" then None else Some (n_of_hex s)
 
@@ -69,7 +70,7 @@ let verdict case impl =
           add_tablet tt (from_raw_tablet (z_of_hex f) (z_of_hex l) raw known)
         | _, _ -> None) (Some tt_empty) (if tabs_s = "-" then [] else String.split_on_char ';' tabs_s) in
     (match tt with
-     | None -> if impl = ["panic"] then "ok" else "diff model: add_tablet panics"
+     | None -> if impl = ["panic"] then "viol panic" else "diff model: add_tablet panics"
      | Some tt ->
        let s = ts_for tt.tt_list (z_of_hex tok_s) (opt_n dc_s) in
        let pr (h, sh) = hex_of_n h ^ ":" ^ hex_of_n sh in
@@ -88,9 +89,12 @@ let verdict case impl =
            | [olen; oiter; onth; ochoose; oord; _] ->
              (* the property on the implementation's own views: they describe one list *)
              let it = if oiter = "-" then [] else split_on ',' oiter in
+             let srt l = List.sort compare l in
              let consistent =
                int_of_string ("0x" ^ olen) = List.length it
-               && oord = oiter
+               (* the views describe the same replicas; the order of the ordered view of a tablet set
+                  is not part of the statement *)
+               && srt (if oord = "-" then [] else split_on ',' oord) = srt it
                && (split_on ',' onth |> List.mapi (fun k v -> v = (match List.nth_opt it k with Some x -> x | None -> "_")) |> List.for_all (fun b -> b))
                && (ochoose = "-" || List.for_all (fun x -> List.mem x it) (split_on ',' ochoose)) in
              (if consistent then "diff" else "viol views") ^ " tablet-set model: " ^ String.concat " " m
@@ -115,7 +119,7 @@ let verdict case impl =
     let m_hints = String.concat "/" (List.map (fun sq -> String.concat "," (List.map hint_s (rs_run_hints dcf rackf g pre t s sq))) seqs) in
     let m_ohint = hint_s (rs_ordered_hint dcf rackf g pre t s) in
     (match impl with
-     | [len; iter; nth; choose; cf; ordered; ep; np; ops; sh; osh; hints; ohint] ->
+     | [len; iter; nth; choose; cf; ordered; ep; np; ops; sh; osh; hints; ohint; vsh] ->
        let o_len = int_of_string ("0x" ^ len) and o_iter = ids_of iter and o_np = ids_of np in
        let o_nth = List.map opt_n (split_on ',' nth) in
        let exact = String.length choose > 0 && choose.[0] = 'E' in
@@ -141,7 +145,11 @@ let verdict case impl =
          && sh = string_of_nlist (List.map snd (with_shards sharderf t m_iter))
          (* size_hint in every visited iterator state: C04_size_hint *)
          && hints = m_hints && ohint = m_ohint
-         && (osh = "panic" || osh = string_of_nlist (List.map snd (with_shards sharderf t m_ord))) in
+         && (if o_ord = None then osh = "panic" else osh = string_of_nlist (List.map snd (with_shards sharderf t m_ord)))
+         (* the shard yielded by nth(k), by choose and by the interleaved operations *)
+         && (let so = function Some n -> hex_of_n (computed_shard sharderf t n) | None -> "_" in
+             let jl l = if l = [] then "-" else String.concat "," (List.map so l) in
+             vsh = String.concat "/" [jl m_nth; jl m_choose; jl (match m_ops with a :: _ -> a | [] -> [])]) in
        (* model agrees: the theorems of Props/C04.v give the property (C04_placement_model,
           C04_views_*, C04_ordered_model, C04_views_ops, C04_precomputed_any) *)
        if agree then "ok" else
@@ -160,9 +168,31 @@ let verdict case impl =
          && (match o_cf with Some x -> mem x o_iter | None -> true)
          && (List.length o_ops = List.length seqs && List.for_all2 (fun sq o -> o = list_run sq o_iter) seqs o_ops)
          && (match o_ep with Some l -> same_set l o_iter || (l = [] && o_iter = []) | None -> true) in
-       let ordered_okb = match o_ord with Some l -> ordered_ok g t o_iter l | None -> false in
+       (* a token owned by several nodes: the statement does not say in which order they come; the
+          placement / ring-order predicates are evaluated for every order of the entries sharing a
+          token (at most 24 variants) and fail only if they fail for all of them *)
+       let variants =
+         if tokens_distinct g then [g] else begin
+           let rec runs = function
+             | [] -> []
+             | (tk, n) :: r ->
+               let same, rest = List.partition (fun (tk', _) -> tk' = tk) r in
+               ((tk, n) :: same) :: runs rest in
+           let rec perms = function
+             | [] -> [[]]
+             | l -> List.concat_map (fun x -> List.map (fun p -> x :: p) (perms (List.filter (fun y -> y != x) l))) l in
+           let rec prod = function
+             | [] -> [[]]
+             | run :: r -> let tails = prod r in
+               List.concat_map (fun p -> List.map (fun tl -> p @ tl) tails) (if List.length run > 3 then [run] else perms run) in
+           let all = prod (runs g) in
+           if List.length all > 24 then [g] else all
+         end in
+       let ordered_okb = match o_ord with
+         | Some l -> List.exists (fun g' -> ordered_ok g' t o_iter l) variants
+         | None -> false in
        let pre_ok = same_set o_np o_iter in
-       let place_ok = placement_ok spec o_iter in
+       let place_ok = List.exists (fun g' -> placement_ok (spec_replicas dcf rackf g' t strat dc) o_iter) variants in
        let fails = (if views_ok then [] else ["views"]) @ (if ordered_okb then [] else ["ordered"])
                    @ (if pre_ok then [] else ["precomputed"]) @ (if place_ok then [] else ["placement"]) in
        let detail = Printf.sprintf "model: len=%x iter=%s nth=%s choose=%s ordered=%s np=%s spec=%s"
